@@ -460,6 +460,9 @@ impl Interaction {
         let n = get_power_of_two(mat.len())
             .map_err(|_| format!("Matrix size must be power of 2, was {}", mat.len()))?;
         let vars = vars.into();
+        if vars.is_empty() {
+            return Err("Interaction must act on at least one variable".to_string());
+        }
         let constant_along_diagonal = mat
             .iter()
             .cloned()
@@ -516,7 +519,9 @@ impl Interaction {
             let n = get_mat_var_size(mat.len())
                 .map_err(|_| format!("Matrix size must be power of 2, was {}", mat.len()))?;
             let vars = vars.into();
-            if n != vars.len() {
+            if vars.is_empty() {
+                Err("Interaction must act on at least one variable".to_string())
+            } else if n != vars.len() {
                 Err(format!("Given {} vars, expected {}", vars.len(), n))
             } else {
                 let constant = mat
